@@ -370,6 +370,7 @@ _STDLIB_PURE = {   # side-effect-free stdlib helpers the repository imports by n
     ('itertools', 'zip_longest'): lambda *a, **k: list(_it.zip_longest(*a, **k)),
     ('functools', 'reduce'): _ft.reduce, ('functools', 'partial'): _ft.partial,
     ('operator', 'itemgetter'): operator.itemgetter,
+    ('sys', 'maxsize'): __import__('sys').maxsize,
     ('collections', 'defaultdict'): collections.defaultdict,
     ('xml.sax.saxutils', 'quoteattr'): __import__('xml.sax.saxutils', fromlist=['quoteattr']).quoteattr,
     ('xml.sax.saxutils', 'escape'): __import__('xml.sax.saxutils', fromlist=['escape']).escape,
@@ -664,6 +665,16 @@ def _call(node, env):
             if isinstance(v, FuncRef) and isinstance(v.node, ast.FunctionDef):
                 genv[k] = FuncVal(v.node, genv, it)
         return FuncVal(fn.node, genv, it)(*args, **kw)
+    if isinstance(fn, FuncRef) and isinstance(fn.node, ast.ClassDef) and '__forest__' in env:
+        # a module-level constant that is an instance of a (tuple / dataclass / enum) class of the module
+        from .interp import Interp, FuncVal, ClassVal, _is_exception_class
+        if not _is_exception_class(fn.node, env):
+            it = Interp(max_steps=2_000_000)
+            genv = dict(env)
+            for k, v in list(genv.items()):
+                if isinstance(v, FuncRef) and isinstance(v.node, ast.FunctionDef):
+                    genv[k] = FuncVal(v.node, genv, it)
+            return ClassVal(env['__forest__'], fn.mod, fn.node, genv, it)(*args, **kw)
     if fn is None or isinstance(fn, FuncRef):
         raise Unknown(f'call of {ast.unparse(node.func)} is not foldable')
     if 'key' in kw and isinstance(kw['key'], LambdaVal):
